@@ -176,13 +176,21 @@ macro_rules! la_type {
                 rep.check(&format!("{key}|smallest_ev|n{n}"), maxabs(&(e0 - d[0])) + (0..n).map(|i| maxabs(&(v0[i] - v[(i, 0)]))).fold(0.0, f64::max), etol, || json!({"n": n}));
                 // nalgebra's symmetric_eigen over the dual scalar: same identities (unordered spectrum)
                 let se = s_na.clone().symmetric_eigen();
-                let mut e3 = 0.0f64;
+                let (mut e3, mut e3re, mut e3first) = (0.0f64, 0.0f64, 0.0f64);
                 for i in 0..n { for k in 0..n {
                     let mut acc = -(se.eigenvectors[(i, k)] * se.eigenvalues[k]);
                     for j in 0..n { acc = acc + s_na[(i, j)] * se.eigenvectors[(j, k)]; }
                     e3 = e3.max(maxabs(&acc));
+                    e3re = e3re.max(acc.re().abs());
+                    e3first = e3first.max(first(&acc).iter().fold(0.0f64, |m, x| m.max(x.abs())));
                 } }
-                rep.check(&format!("{key}|nalgebra symmetric_eigen|n{n}"), e3, 1e-6, || json!({"n": n}));
+                // nalgebra stops its QR iteration when the REAL parts of the off-diagonal have converged; the derivative
+                // parts lag behind by one (first order) resp. two (second order) iterations of a quadratically convergent
+                // process, so what is left in them is far above rounding: tolerances per order (calibrated on seeds 1-6:
+                // worst observed 1.3e-12 / 3e-9 / 2e-5, i.e. a margin of 50 or more; a wrong field operation leaves O(1) residuals)
+                rep.check(&format!("{key}|nalgebra symmetric_eigen re|n{n}"), e3re, 1e-10, || json!({"n": n}));
+                rep.check(&format!("{key}|nalgebra symmetric_eigen first order|n{n}"), e3first, 1e-6, || json!({"n": n}));
+                rep.check(&format!("{key}|nalgebra symmetric_eigen|n{n}"), e3, 1e-3, || json!({"n": n}));
                 if rep.samples.len() < 3 && s == 2 {
                     rep.samples.push(json!({"type": key, "n": n, "eigenvalues": (0..n).map(|k| d[k].to_json()).collect::<Vec<_>>()}));
                 }
